@@ -92,7 +92,7 @@ def evalLayout (cfg : Cfg) (es : InEdges) (obs : Json) (heavy : Bool := true) : 
       let drawn := drawingCrossings o
       v := v.add "C12" (total == (drawn : Int)) s!"logged={total} drawn={drawn}"
   -- C11
-  if cfg.p2 == 1 then v := v.add "C11" (c11 o) "bands-vs-longest-path"
+  if cfg.p2 == 1 then v := v.add "C11" (c11 o (cfg.ls > 0 && cfg.p4 ≤ 4)) "bands-vs-longest-path (band index of every node as traced and as drawn)"
   -- C13
   if isRootedTree es && cfg.p4 ≤ 3 && cfg.p5 == 0 && cfg.ns > 0 then
     v := v.add "C13" (drawingCrossings o == 0) s!"tree drawn with {drawingCrossings o} crossings"
